@@ -390,4 +390,70 @@ func init() {
 			More:   []Edit{{File: og, Old: tOgImport, New: ""}, {File: cnd, Old: cndGen, New: strings.Replace(tCndGenLookup, "observedGeneration != obj", "observedGeneration < obj", 1)}, {File: prb, Old: tProbeTail, New: tLookup("false", "true")}},
 			Expect: []string{"C17.R4@"}},
 	)
+	// ---- shapes of corpus N* (round eight) --------------------------------------------------
+	const uPaths = "\tfieldAPath := strings.Split(strings.Trim(fe.FieldA, \".\"), \".\")\n\tfieldBPath := strings.Split(strings.Trim(fe.FieldB, \".\"), \".\")\n\n"
+	const uLookups = "\tfieldAVal, ok, err := unstructured.NestedFieldCopy(obj.Object, fieldAPath...)\n\tif err != nil || !ok {\n\t\treturn false, fmt.Sprintf(`\"%v\" missing`, fe.FieldA)\n\t}\n\tfieldBVal, ok, err := unstructured.NestedFieldCopy(obj.Object, fieldBPath...)\n\tif err != nil || !ok {\n\t\treturn false, fmt.Sprintf(`\"%v\" missing`, fe.FieldB)\n\t}\n\n\tif !equality.Semantic.DeepEqual(fieldAVal, fieldBVal) {\n\t\treturn false, fmt.Sprintf(`\"%v\" != \"%v\"`, fieldAVal, fieldBVal)\n\t}\n"
+	const uKindTest = "\tgk := obj.GetObjectKind().GroupVersionKind().GroupKind()\n\tif kp.GroupKind == gk {\n"
+	const uLabelSel = "\t\ts, err := metav1.LabelSelectorAsSelector(selector.Selector)\n\t\tif err != nil {\n\t\t\treturn nil, err\n\t\t}\n\t\tprobe = &probing.LabelSelector{\n\t\t\tProber:   probe,\n\t\t\tSelector: s,\n\t\t}\n"
+	const uLabelSelCall = "\t\tlabelSelected, err := c17tSelectLabels(selector.Selector, probe)\n\t\tif err != nil {\n\t\t\treturn nil, err\n\t\t}\n\t\tprobe = labelSelected\n"
+	addMutants(
+		Mutant{Prop: "C17", Name: "r2-benign-kind-compared-fieldwise", File: sel, Benign: true,
+			Old: uKindTest,
+			New: "\tgvk := obj.GetObjectKind().GroupVersionKind()\n\tif kp.Group == gvk.Group && kp.Kind == gvk.Kind {\n"},
+		Mutant{Prop: "C17", Name: "r2-kind-fieldwise-either-field", File: sel,
+			Old:    uKindTest,
+			New:    "\tgvk := obj.GetObjectKind().GroupVersionKind()\n\tif kp.Group == gvk.Group || kp.Kind == gvk.Kind {\n",
+			Expect: []string{"C17.R2@"}, Why: "an object of another kind in the same group is probed"},
+		Mutant{Prop: "C17", Name: "r2-kind-fieldwise-kind-against-group", File: sel,
+			Old:    uKindTest,
+			New:    "\tgvk := obj.GetObjectKind().GroupVersionKind()\n\tif kp.Group == gvk.Group && kp.Kind == gvk.Group {\n",
+			Expect: []string{"C17.R2@"}},
+		Mutant{Prop: "C17", Name: "r2-kind-fieldwise-group-only", File: sel,
+			Old:    uKindTest,
+			New:    "\tgvk := obj.GetObjectKind().GroupVersionKind()\n\tif kp.Group == gvk.Group && kp.Group != \"\" {\n",
+			Expect: []string{"C17.R2@"}},
+		Mutant{Prop: "C17", Name: "r3-benign-label-selector-helper", File: prs, Benign: true,
+			Old:  uLabelSel,
+			New:  uLabelSelCall,
+			More: []Edit{{File: prs, Old: prsProbesDoc, New: "func c17tSelectLabels(labelSelector *metav1.LabelSelector, probe probing.Prober) (probing.Prober, error) {\n\ts, err := metav1.LabelSelectorAsSelector(labelSelector)\n\tif err != nil {\n\t\treturn nil, err\n\t}\n\treturn &probing.LabelSelector{\n\t\tProber:   probe,\n\t\tSelector: s,\n\t}, nil\n}\n\n" + prsProbesDoc}}},
+		Mutant{Prop: "C17", Name: "r3-label-selector-helper-swallows-error", File: prs,
+			Old:    uLabelSel,
+			New:    uLabelSelCall,
+			More:   []Edit{{File: prs, Old: prsProbesDoc, New: "func c17tSelectLabels(labelSelector *metav1.LabelSelector, probe probing.Prober) (probing.Prober, error) {\n\ts, err := metav1.LabelSelectorAsSelector(labelSelector)\n\tif err != nil {\n\t\treturn nil, nil\n\t}\n\treturn &probing.LabelSelector{\n\t\tProber:   probe,\n\t\tSelector: s,\n\t}, nil\n}\n\n" + prsProbesDoc}},
+			Expect: []string{"C17.R3@internal/probing.ParseSelector"}, Why: "an invalid label selector yields a nil prober without an error"},
+		Mutant{Prop: "C17", Name: "r3-label-selector-helper-bare-on-error", File: prs,
+			Old:    uLabelSel,
+			New:    uLabelSelCall,
+			More:   []Edit{{File: prs, Old: prsProbesDoc, New: "func c17tSelectLabels(labelSelector *metav1.LabelSelector, probe probing.Prober) (probing.Prober, error) {\n\ts, err := metav1.LabelSelectorAsSelector(labelSelector)\n\tif err != nil {\n\t\treturn probe, nil\n\t}\n\treturn &probing.LabelSelector{\n\t\tProber:   probe,\n\t\tSelector: s,\n\t}, nil\n}\n\n" + prsProbesDoc}},
+			Expect: []string{"C17.R3@internal/probing.ParseSelector"}, Why: "an invalid label selector silently selects every object"},
+		Mutant{Prop: "C17", Name: "r5-benign-fields-in-array-loop", File: feq, Benign: true,
+			Old:  uPaths,
+			New:  "",
+			More: []Edit{{File: feq, Old: uLookups, New: "\tfields := [2]string{fe.FieldA, fe.FieldB}\n\tvar vals [2]any\n\tfor i, field := range fields {\n\t\tpath := strings.Split(strings.Trim(field, \".\"), \".\")\n\t\tval, ok, err := unstructured.NestedFieldCopy(obj.Object, path...)\n\t\tif err != nil || !ok {\n\t\t\treturn false, fmt.Sprintf(`\"%v\" missing`, field)\n\t\t}\n\t\tvals[i] = val\n\t}\n\n\tif !equality.Semantic.DeepEqual(vals[0], vals[1]) {\n\t\treturn false, fmt.Sprintf(`\"%v\" != \"%v\"`, vals[0], vals[1])\n\t}\n"}}},
+		Mutant{Prop: "C17", Name: "r5-array-loop-found-flag-ignored", File: feq,
+			Old:    uPaths,
+			New:    "",
+			More:   []Edit{{File: feq, Old: uLookups, New: "\tfields := [2]string{fe.FieldA, fe.FieldB}\n\tvar vals [2]any\n\tfor i, field := range fields {\n\t\tpath := strings.Split(strings.Trim(field, \".\"), \".\")\n\t\tval, _, err := unstructured.NestedFieldCopy(obj.Object, path...)\n\t\tif err != nil {\n\t\t\treturn false, fmt.Sprintf(`\"%v\" missing`, field)\n\t\t}\n\t\tvals[i] = val\n\t}\n\n\tif !equality.Semantic.DeepEqual(vals[0], vals[1]) {\n\t\treturn false, fmt.Sprintf(`\"%v\" != \"%v\"`, vals[0], vals[1])\n\t}\n"}},
+			Expect: []string{"C17.R5@"}},
+		Mutant{Prop: "C17", Name: "r5-array-loop-missing-field-skipped", File: feq,
+			Old:    uPaths,
+			New:    "",
+			More:   []Edit{{File: feq, Old: uLookups, New: "\tfields := [2]string{fe.FieldA, fe.FieldB}\n\tvar vals [2]any\n\tfor i, field := range fields {\n\t\tpath := strings.Split(strings.Trim(field, \".\"), \".\")\n\t\tval, ok, err := unstructured.NestedFieldCopy(obj.Object, path...)\n\t\tif err != nil || !ok {\n\t\t\tcontinue\n\t\t}\n\t\tvals[i] = val\n\t}\n\n\tif !equality.Semantic.DeepEqual(vals[0], vals[1]) {\n\t\treturn false, fmt.Sprintf(`\"%v\" != \"%v\"`, vals[0], vals[1])\n\t}\n"}},
+			Expect: []string{"C17.R5@"}, Why: "a missing field leaves its element nil and is compared"},
+		Mutant{Prop: "C17", Name: "r5-array-loop-same-element-compared", File: feq,
+			Old:    uPaths,
+			New:    "",
+			More:   []Edit{{File: feq, Old: uLookups, New: "\tfields := [2]string{fe.FieldA, fe.FieldB}\n\tvar vals [2]any\n\tfor i, field := range fields {\n\t\tpath := strings.Split(strings.Trim(field, \".\"), \".\")\n\t\tval, ok, err := unstructured.NestedFieldCopy(obj.Object, path...)\n\t\tif err != nil || !ok {\n\t\t\treturn false, fmt.Sprintf(`\"%v\" missing`, field)\n\t\t}\n\t\tvals[i] = val\n\t}\n\n\tif !equality.Semantic.DeepEqual(vals[0], vals[0]) {\n\t\treturn false, fmt.Sprintf(`\"%v\" != \"%v\"`, vals[0], vals[1])\n\t}\n"}},
+			Expect: []string{"C17.R5@"}},
+		Mutant{Prop: "C17", Name: "r5-array-loop-same-path-twice", File: feq,
+			Old:    uPaths,
+			New:    "",
+			More:   []Edit{{File: feq, Old: uLookups, New: "\tfields := [2]string{fe.FieldA, fe.FieldA}\n\tvar vals [2]any\n\tfor i, field := range fields {\n\t\tpath := strings.Split(strings.Trim(field, \".\"), \".\")\n\t\tval, ok, err := unstructured.NestedFieldCopy(obj.Object, path...)\n\t\tif err != nil || !ok {\n\t\t\treturn false, fmt.Sprintf(`\"%v\" missing`, field)\n\t\t}\n\t\tvals[i] = val\n\t}\n\n\tif !equality.Semantic.DeepEqual(vals[0], vals[1]) {\n\t\treturn false, fmt.Sprintf(`\"%v\" != \"%v\"`, vals[0], vals[1])\n\t}\n"}},
+			Expect: []string{"C17.R5@"}},
+		Mutant{Prop: "C17", Name: "r5-array-loop-stops-after-first", File: feq,
+			Old:    uPaths,
+			New:    "",
+			More:   []Edit{{File: feq, Old: uLookups, New: "\tfields := [2]string{fe.FieldA, fe.FieldB}\n\tvar vals [2]any\n\tfor i, field := range fields {\n\t\tpath := strings.Split(strings.Trim(field, \".\"), \".\")\n\t\tval, ok, err := unstructured.NestedFieldCopy(obj.Object, path...)\n\t\tif err != nil || !ok {\n\t\t\treturn false, fmt.Sprintf(`\"%v\" missing`, field)\n\t\t}\n\t\tvals[i] = val\n\t\tbreak\n\t}\n\n\tif !equality.Semantic.DeepEqual(vals[0], vals[1]) {\n\t\treturn false, fmt.Sprintf(`\"%v\" != \"%v\"`, vals[0], vals[1])\n\t}\n"}},
+			Expect: []string{"C17.R5@"}, Why: "only the first field is looked up"},
+	)
 }
